@@ -1063,6 +1063,20 @@ func canProveRule(P *Program, R *Report, rule string) {
 		}
 	}
 	R.decide(rule, "keyproof.CanProve:primality", "CanProve tests primality of the factors and their halves", n >= 2, fmt.Sprintf("%d primality tests", n), P.Pos(fn.Pos()))
+	// true => BOTH factors passed the safe-prime test (the one derived from Pprime and the one derived from Qprime)
+	for i, which := range []string{"P", "Q"} {
+		arg := fmt.Sprintf("arg#%d", i)
+		mp(P, R, rule, "keyproof.CanProve:safe-prime("+which+")", "true => the factor "+which+" = 2*"+which+"prime+1 passed ProbablySafePrime (k >= 20)", fn, AcceptTrue(0), &MustPass{Match: func(a Atom) bool {
+			c, _ := callAndResult(a.V)
+			if c == nil || a.Want != True || !isCallTo(c, "safeprime.ProbablySafePrime") || len(callArgs(c)) != 2 {
+				return false
+			}
+			if k, ok := constInt(callArgs(c)[1]); !ok || k < 20 {
+				return false
+			}
+			return dependsOn(P, callArgs(c)[0], func(d string) bool { return d == arg })
+		}})
+	}
 	// count residue comparisons (Cmp against small constants) on accepting paths
 	m := 0
 	allInstrs(fn, func(i ssa.Instruction) {
